@@ -159,6 +159,22 @@ class Run(object):
         self.all_dead = False
         self.kill_all = False  # the whole process (all tasks) dies at the crash point
         self.epoch = 0  # incremented at every simulated process death: older file objects are dead
+        # "short writes": a write on a raw descriptor (unbuffered file object, os.write, os.sendfile,
+        # os.copy_file_range) may legally accept fewer bytes than offered and say so in its return value
+        self.short_writes = False
+        self.short_counter = 0
+
+    def short(self, n):
+        """How many of n offered bytes this raw write accepts (seeded, deterministic)."""
+        if not self.short_writes or n < 2:
+            return n
+        self.short_counter += 1
+        import hashlib
+        h = int(hashlib.sha1(("short:%s:%d" % (self.seed, self.short_counter)).encode()).hexdigest()[:8], 16)
+        if h % 3:
+            return n
+        self.counts["short-write"] = self.counts.get("short-write", 0) + 1
+        return 1 + (h >> 8) % (n - 1)
 
     # -- helpers ---------------------------------------------------------------------------
     def rel(self, path):
@@ -462,6 +478,14 @@ def _mk_fd_write(name, fd_arg=0):
         if ap is None or not _inside(run, ap):
             return real(*a, **kw)
         run.event("truncate" if name == "ftruncate" else "write", name, ap)
+        if run.short_writes and not kw:
+            a = list(a)
+            if name == "write" and isinstance(a[1], (bytes, bytearray, memoryview)):
+                a[1] = bytes(a[1])[: run.short(len(a[1]))]
+            elif name == "sendfile" and len(a) == 4 and isinstance(a[3], int):
+                a[3] = run.short(a[3])
+            elif name == "copy_file_range" and len(a) >= 3 and isinstance(a[2], int):
+                a[2] = run.short(a[2])
         return real(*a, **kw)
 
     return fn
@@ -641,6 +665,11 @@ class FileProxy(object):
             run.event(kind, op, self._path, extra)
 
     def write(self, data):
+        if isinstance(self._f, io.RawIOBase):
+            # unbuffered: every write is a system call, and it may be short
+            self._ev("write", "write-raw", extra=len(data))
+            k = self._run.short(len(data))
+            return self._f.write(data if k == len(data) else bytes(data)[:k])
         if self._run.write_through:
             self._ev("write", "write", extra=len(data))
             n = self._f.write(data)
